@@ -107,9 +107,10 @@ def o16_1(tier):
             m, fr, cycles, info, _ = build(ctx, shape, k)
             u = versor_by_contract(ctx, fr)
             limit = float("inf") if infinite else ctx.real("limit")
-            if quiet_ends and ctx.mode == "sym":
+            if quiet_ends:
                 # cheaper instance: only the inner junction may be flagged (the outer ends open by less than the limit)
                 from fvc import sym as S
+                import math
                 inner = set(info["junction_rows"])
                 for v in sorted({vv for (_, vv) in u}):
                     if v in inner:
@@ -117,7 +118,8 @@ def o16_1(tier):
                     at = sorted(b for (b, vv) in u if vv == v)
                     for a, b in itertools.combinations(at, 2):
                         d = u[(a, v)][0] * u[(b, v)][0] + u[(a, v)][1] * u[(b, v)][1]
-                        ctx.assume(S.arccos(d, ctx.it.decide) < limit, "pre: outer ends not flagged")
+                        ang = S.arccos(d, ctx.it.decide) if ctx.mode == "sym" else math.acos(max(-1.0, min(1.0, d)))
+                        ctx.assume(ang < limit, "pre: outer ends not flagged")
             before = [ctx.list_of(e) for e in ctx.list_of(ctx.get(fr, "internal_big_edges_vertices"))]
             fm = force_matrix(ctx, fr, False, angle_limit=limit)
             after = [ctx.list_of(e) for e in ctx.list_of(ctx.get(fr, "internal_big_edges_vertices"))]
